@@ -39,9 +39,11 @@ class TranslationError(Exception):
 
 
 def _lit(s: str) -> str:
-    if any(ord(ch) >= 128 or ch in "'\\" or ord(ch) < 32 for ch in s):
+    """A string as a `List Char` literal (quotes and backslashes escaped; source text of an expression may contain them)."""
+    if any(ord(ch) >= 128 or ord(ch) < 32 for ch in s):
         raise TranslationError(f"string {s!r} cannot be written as a plain Lean character list")
-    return "[" + ",".join("'" + ch + "'" for ch in s) + "]"
+    esc = {"'": "\\'", "\\": "\\\\"}
+    return "[" + ",".join("'" + esc.get(ch, ch) + "'" for ch in s) + "]"
 
 
 def _str(s: str) -> str:
@@ -371,8 +373,27 @@ def collect_source():
     for a, d in zip(reversed(cg_init.args.args), reversed(cg_init.args.defaults)):
         if a.arg == "search_policy":
             cg_default_policy = ast.unparse(d)
-    # ---- construction order ----------------------------------------------------------------------------------------------------
+    # ---- the guard of _add_to_environment: may a name already present be replaced? ---------------------------------------------
     env_cls = find_def(env_tree, "CodeGenEnvironment")
+    add_fn = find_def(env_cls, "_add_to_environment")
+    guard, seen_membership = None, False
+    for st in body_without_docstring(add_fn):
+        if isinstance(st, ast.If) and ast.unparse(st.test) == "item_name in collection":
+            seen_membership = True
+            for inner in ast.walk(st):
+                if isinstance(inner, ast.If) and inner is not st and inner.body and isinstance(inner.body[0], ast.Raise):
+                    if guard is not None:
+                        raise TranslationError("_add_to_environment raises in more than one place")
+                    t = inner.test      # raises when `t` holds: replacement is allowed iff not t
+                    guard = allow_expr(t.operand, set(), self_flag=FLAG) if isinstance(t, ast.UnaryOp) and isinstance(t.op, ast.Not) \
+                        else ("not", allow_expr(t, set(), self_flag=FLAG))
+        elif any(isinstance(n, ast.Raise) for n in ast.walk(st)):
+            raise TranslationError(f"_add_to_environment line {st.lineno}: a raise outside the `item_name in collection` branch")
+    if guard is None:
+        guard = ("const", True)   # no raise (left): a name already present is always replaced
+    if not seen_membership and guard != ("const", True):
+        raise TranslationError("_add_to_environment: cannot find the `item_name in collection` branch")
+    # ---- construction order ----------------------------------------------------------------------------------------------------
     ctor_steps = translate_ctor(env_cls)
     dsdl_steps, dsdl_kw = translate_generator_init(find_def(gen_tree, "DSDLCodeGenerator"), "DSDLCodeGenerator")
     sup_steps, sup_kw = translate_generator_init(find_def(gen_tree, "SupportGenerator"), "SupportGenerator")
@@ -383,7 +404,7 @@ def collect_source():
             raise TranslationError(f"search policy {p!r} is not a constant the model knows")
         return p.split(".")[1]
 
-    return {"assignments": assignments, "reads": reads, "builder": builder, "builder_hands_on": handed, "generator_allow": gen_allow,
+    return {"assignments": assignments, "reads": reads, "builder": builder, "builder_hands_on": handed, "generator_allow": gen_allow, "add_guard": guard,
             "ctor_steps": ctor_steps, "dsdl_steps": dsdl_steps, "support_steps": sup_steps,
             "dsdl_policy": policy(dsdl_kw), "support_policy": policy(sup_kw)}
 
@@ -497,6 +518,10 @@ def render(d) -> str:
         expr_inputs(a["expr"], inputs)
     o.append(f"/-- The inputs the right-hand sides above mention (`loader.<attr>`: an attribute of the loader; `?…`: not understood). -/")
     o.append("def allowInputs : List String := [" + ", ".join(_str(x) for x in sorted(set(inputs))) + "]")
+    o.append("")
+    o.append("/-- `_add_to_environment`: a name already present may be replaced iff this holds (`.ctorArg` here = the flag `_allow_replacements`);")
+    o.append("otherwise RuntimeError. -/")
+    o.append(f"def addGuard : AllowExpr := {render_expr(d['add_guard'])}")
     o.append("")
     o.append(f"/-- Assignments to the builder's `{BUILDER_FLAG}` (`.ctorArg` = the setter's parameter). -/")
     o.append("def builderFlagAssignments : List (Located × AllowExpr) := [")
